@@ -156,6 +156,14 @@ func (ev *evaluator) Eval(e ast.Expr) *AVal {
 					r.Tags["var:"+v.Name()] = true
 					return r
 				}
+				if r.Kind == "struct" || r.Kind == "list" {
+					// a package-level composite: every use shares the same storage
+					if r.Tags == nil {
+						r.Tags = map[string]bool{}
+					}
+					r.Tags["shared:"+v.Name()] = true
+					return r
+				}
 			}
 		}
 	case *ast.SelectorExpr:
